@@ -10,6 +10,7 @@
   * `Sys` is the abstract two-agent system over a monotone message history: any message ever sent
     may be delivered any number of times, in any order, at any time (loss = never delivered).
 -/
+import Nice.Gen.RoleConflict
 namespace Nice.IceRole
 
 inductive Reply where
@@ -26,7 +27,8 @@ def onRequest (control : Bool) (tie : UInt64) (reqControlling : Option Bool) (q 
   | some rc =>
     if rc == control then
       -- role conflict
-      if (decide (tie < q) && control) || (decide (tie ≥ q) && !control) then (!control, .switched)
+      -- the guard is REGENERATED from stun/usages/ice.c on every run (Nice.Gen.RoleConflict.switches)
+      if Nice.Gen.RoleConflict.switches tie q control then (!control, .switched)
       else (control, .err487)
     else (control, .success)
 
